@@ -230,7 +230,7 @@ def _check_cycle_entry(
     if len(satisfied) > 1:
         # If all satisfied entry points need the same params, it's not ambiguous —
         # the user is seeding the cycle regardless of which node runs first.
-        distinct_param_sets = {entrypoints[name] for name in satisfied}
+        distinct_param_sets = {frozenset(entrypoints[name]) for name in satisfied}
         if len(distinct_param_sets) > 1:
             lines = ["Ambiguous cycle entry — provided values match multiple entry points:"]
             for name in satisfied:
